@@ -30,6 +30,7 @@ var crashPoints = []struct {
 }{
 	{"before-output", "all"},
 	{"mid-line", "all"},
+	{"blank-lines-then-exit", "all"},
 	{"after-listener", "all"},
 	{"after-line", "all"},
 	{"idle", "all"},
@@ -157,6 +158,8 @@ func runCrashCase(c *crashCase) (impl, pred string) {
 		kc.PreServe = "exit:3"
 	case "mid-line":
 		kc.PreServe = "printexit:" + hxs("1|3|un")
+	case "blank-lines-then-exit":
+		kc.PreServe = "printexit:" + hxs("\n\n\r\n")
 	case "after-listener":
 		hook("serve.after-listener=exit:3")
 	case "after-line":
